@@ -126,6 +126,28 @@ def one(ctx, kind, data, do_model=True, region_only=None):
                      f"({[data[a:b] for a, b in want]})", case)
     else:
         check_attrs(ctx, data, t, case)
+    # the same bytes through an object that has loaded other files before: the atoms and their flags belong to THIS file
+    _count[0] += 1
+    if not ctx.thorough and _count[0] % (32 if len(data) < 6 else 3):
+        obj = None      # quick tier: one in 32 of the short exhaustive strings, one in 3 of the longer documents
+    else:
+        obj = _reused.get(kind)
+        if obj is None:
+            obj = _reused[kind] = loaders.new_testcase(kind)
+    rp = loaders.scratch() / "c16-reuse.txt"
+    try:
+        if obj is None:
+            raise StopIteration
+        rp.write_bytes(data)
+        obj.load(rp)
+        if (obj.before, obj.parts, obj.reducible, obj.after) != (t.before, t.parts, t.reducible, t.after):
+            ctx.fail("reuse", f"{kind}: an object that loaded other files before gives atoms/flags {list(zip(obj.parts, obj.reducible))!r}, "
+                     f"a fresh one {list(zip(t.parts, t.reducible))!r}", dict(case, reused_object=True))
+    except StopIteration:
+        pass
+    except Exception as exc:  # pylint: disable=broad-except
+        _reused[kind] = None
+        ctx.fail("reuse", f"{kind}: a re-used object raised {type(exc).__name__} where a fresh one loads", dict(case, reused_object=True))
     nred = sum(1 for r in t.reducible if r)
     ctx.bump(f"{kind}:reducible-atoms", nred)
     if nred >= 1 and len(t.parts) >= 2:
@@ -188,6 +210,43 @@ def gen_js(rng):
     pieces = [b"'", b'"', b"\\", b"\\u1234", b"\\x4", b"\\x41", b"\\u{1F}", b"\\u{", b"\\u12", b"\\'", b'\\"', b"\\\\", b"a", b"b ", b"\n", b"x=", b";",
               b"{", b"}", b"G", b"\xff", b"\xc3\xa9"]
     return b"".join(rng.choice(pieces) for _ in range(rng.randint(0, 14)))
+
+
+_reused = {}
+_count = [0]
+
+
+def through_rewriting(ctx):
+    """the two rewriting strategies edit reducible atoms in place: in every candidate the flag layout is the original's and
+    every part that is NOT reducible (quotes and text between strings; tag names, '>' and text between tags) has its bytes"""
+    from .. import strat
+    datas = {"jsstr": [b'a.b = "x.y"; size = \'w.h\' + c.d.e;\nfunction f(p, q) { return p.r + "q.s"; }\nf(t.u, "v");\n',
+                       b'o.p("k.l", \'m\');\nfunction g(a){ return a.z; }\ng(o.p);\n'],
+             "attrs": [b'<p onclick="a.b = c.d" id=x.y>\nsee help.txt or w.z\n<q r="e.f(g.h)" s>t.u</q>\n',
+                       b"<a href='x.y.z' b=c.d>\nfunction f(p){}\nf(k.l)\n<e f=g.h>\n"]}
+    for kind, ds in datas.items():
+        for data in ds:
+            res = loaders.real_load(kind, data)
+            if res[0] != "ok":
+                continue
+            f = strat.fields(res[1])
+            for name in ("replace-properties-by-globals", "replace-arguments-by-globals"):
+                for label, dec in (("yes", lambda k, c: True), ("no", lambda k, c: False), ("alt", lambda k, c: k % 2 == 0), ("alt'", lambda k, c: k % 2 == 1)):
+                    tc = strat.testcase_from_fields(kind, f)
+                    run = strat.run_real(name, {}, tc, dec, max_tests=400, watchdog=10.0)
+                    ctx.evaluations += 1
+                    ctx.bump("through-rewriting:" + kind)
+                    case = dict(splitter=kind, data=common.enc_bytes(data), via=name, verdicts=label)
+                    for a in run.atts + [dict(cand=run.best)]:
+                        c = a["cand"]
+                        if list(c[2]) != list(f[2]):
+                            ctx.fail("rewriting-changes-flags", f"{name} on a {kind} file: a candidate has flags {common.enc_bools(c[2])}, the file was "
+                                     f"split with flags {common.enc_bools(f[2])} (parts {c[1]!r})", case)
+                            break
+                        bad = [(x, y) for x, y, r in zip(f[1], c[1], f[2]) if not r and x != y]
+                        if bad or c[0] != f[0] or c[3] != f[3]:
+                            ctx.fail("rewriting-touches-protected", f"{name} on a {kind} file rewrote text that is not an atom: {bad[:2]!r}", case)
+                            break
 
 
 def through_collapse(ctx):
@@ -270,6 +329,7 @@ def run(ctx) -> int:
         one(ctx, "attrs", gen_doc(rng))
         one(ctx, "jsstr", gen_js(rng))
     through_collapse(ctx)
+    through_rewriting(ctx)
     for _ in range(3000 if ctx.thorough else 600):
         body = gen_js(rng).replace(b"DDBEGIN", b"").replace(b"DDEND", b"")
         one(ctx, "jsstr", b"pre 'x'\n// DDBEGIN\n" + body + b"\n// DDEND '\npost\"\n")
